@@ -165,6 +165,10 @@ def port_trace(f, g, x0, maxcor, maxiter=12, hostile=False, x0_same_object=False
                         sv = np.asarray(live["xk"]) - X[-1]
                         yv = g(np.array(live["xk"], copy=True)) - g(np.array(X[-1], copy=True))
                         legit = float(sv @ yv) <= 2.2e-16 * float(yv @ yv) * (1 + 1e-6)
+                        if not np.any(sv) and searches and not np.array_equal(searches[-1]["x0"], np.asarray(live["xk"])):
+                            # a "zero step" although the search that just ended moved the iterate: the stored base point is the
+                            # iterate itself, not the point the step started from
+                            legit = False
                     except Exception:
                         legit = False
                     if not legit:
@@ -292,6 +296,11 @@ def compare_traces(out, name, ppts, searches, spts, svals, tags, label="evaluati
             multi += 1
         if s["ret"] is None and continue_after_failed_search and s["last"] + 2 <= ncomp:
             out.count("failed_searches_compared_through")
+    for i, s in enumerate(searches):
+        # ... and beyond the iteration that follows the memory reset: the first trial of the second search after the failed one is the
+        # first point that depends on whether the pair of the steepest-descent iteration was stored
+        if s["ret"] is None and continue_after_failed_search and i + 2 < len(searches) and searches[i + 2]["first"] + 1 <= ncomp:
+            out.count("failed_searches_compared_through_two_further_iterations")
     if why:
         out.count("stopped:" + why)
     return ncomp, multi, why
